@@ -312,3 +312,40 @@ Theorem C11_indicators_with_chunked_body : forall cb g r (cuts : list (list byte
 Proof. exact fh_request_chunked_indicators. Qed.
 Print Assumptions C11_indicators_with_identity_body.
 Print Assumptions C11_indicators_with_chunked_body.
+
+(* RESPONSE direction at history level (PFramingHistRes.v): a grammar response (fields one line each) after a plain request, any chunking: a Content-Length framed
+   response carries HTP_REQUEST_SMUGGLING exactly when it has two or more Content-Length fields; a chunk-coded response exactly when a Content-Length field stands
+   next to the Transfer-Encoding. (The library has no INVALID_T_E / INVALID_C_L indicators on the response side; answers to HEAD are not examined.) *)
+Require Import Htp.Model.Base Htp.Model.MBstr Htp.Model.MUri Htp.Model.MPath Htp.Model.MUrlenc Htp.Model.MConnTypes Htp.Model.MTxCommon.
+Require Import Htp.Model.MReqLine Htp.Model.MReqUri Htp.Model.MTxReq Htp.Model.MResLine Htp.Model.MTxRes.
+Require Import Htp.Model.MReq Htp.Model.MRes Htp.Model.MConnp.
+Require Import Htp.Spec.SWire Htp.Spec.SBody Htp.Spec.SFraming Htp.Proof.PWire Htp.Proof.PWireHdr Htp.Proof.PWireBlock Htp.Proof.PWireConn Htp.Proof.PWireExch.
+Require Import Htp.Proof.PWireRun Htp.Proof.PWirePres Htp.Proof.PWireGlue Htp.Proof.PSeg Htp.Proof.PSegLine Htp.Proof.PSegHdr Htp.Proof.PSegGen Htp.Proof.PSegRun.
+Require Import Htp.Proof.PSegFold Htp.Proof.PSegRes Htp.Proof.PSegResLine Htp.Proof.PSegResHdr Htp.Proof.PSegResGen Htp.Proof.PSegResRun Htp.Proof.PSegResReq Htp.Proof.PSegResThm.
+Require Import Htp.Proof.PSegResCanon Htp.Proof.PSegResCh Htp.Proof.PSegResChGen Htp.Proof.PSegResChRun.
+Require Import Htp.Proof.PBody Htp.Proof.PBodyReq Htp.Proof.PSegBody Htp.Proof.PSegChunked Htp.Proof.PSegChunkedGen Htp.Proof.PSegChunkedRun.
+Require Import Htp.Proof.PFraming Htp.Proof.PFramingHist Htp.Proof.PFramingHistLine Htp.Proof.PFramingHistThm.
+Require Import Htp.Proof.PFramingHistRes.
+Theorem C11_response_repeated_content_length : forall cb g rq r (body : bytes) (chunks : list bytes),
+  wr_all_ok cb -> g_allow_space_uri g = false -> wr_request_ok rq = true -> sg_fits g rq = true ->
+  sr_response_ok r = true -> wr_block_ok (wp_fields r) = true ->
+  sr_framed cb g rq r (sr_cuts_whole r) body = true -> sr_fits g r (sr_cuts_whole r) = true ->
+  Forall (fun x => x <> []) chunks -> concat chunks = wr_response_wire r ++ body ->
+  sr_f1_free body (negb (sr_is_nil (sr_lines r (sr_cuts_whole r)))) chunks = true ->
+  exists t, c_txs (fst (cp_run cb g connp_new (OpOpen :: OpReqData (wr_request_wire rq) :: map OpResData chunks))) = sr_final g t /\
+    t_response_progress t = c_HTP_RESPONSE_COMPLETE /\ t_response_transfer_coding t = c_HTP_CODING_IDENTITY /\
+    fr_has (t_flags t) c_HTP_REQUEST_SMUGGLING = (2 <=? length (wr_values_of rs_str_content_length (map wr_field_nv (wp_fields r))))%nat.
+Proof. exact fhr_response_cl_repeated. Qed.
+Theorem C11_response_chunked_with_content_length : forall cb g rq r (ks : list bd_chunk) (last : bytes) (chunks : list bytes),
+  wr_all_ok cb -> g_allow_space_uri g = false -> wr_request_ok rq = true -> sg_fits g rq = true ->
+  sr_response_ok r = true -> wr_block_ok (wp_fields r) = true ->
+  sr_framed_ch cb g rq r (sr_cuts_whole r) = true -> sr_fits g r (sr_cuts_whole r) = true ->
+  sr_cfbody_ok g r ks last [] [] = true ->
+  Forall (fun x => x <> []) chunks -> concat chunks = wr_response_wire r ++ sr_cfbody_wire ks last [] [] ->
+  sr_f1_free (sr_cfbody_wire ks last [] []) (negb (sr_is_nil (sr_lines r (sr_cuts_whole r)))) chunks = true ->
+  exists t, c_txs (fst (cp_run cb g connp_new (OpOpen :: OpReqData (wr_request_wire rq) :: map OpResData chunks))) = sr_final g t /\
+    t_response_progress t = c_HTP_RESPONSE_COMPLETE /\ t_response_transfer_coding t = c_HTP_CODING_CHUNKED /\
+    fr_has (t_flags t) c_HTP_REQUEST_SMUGGLING = (1 <=? length (wr_values_of rs_str_content_length (map wr_field_nv (wp_fields r))))%nat.
+Proof. exact fhr_response_chunked_cl. Qed.
+Print Assumptions C11_response_repeated_content_length.
+Print Assumptions C11_response_chunked_with_content_length.
